@@ -38,14 +38,15 @@ A structure over the model state `s` ALONE — the engine's own readers `State.i
 * `obs` (`Quiet.ObsInv`): observers watch existing nodes; the observer list of a node = the in-use/disallowed observers on it; created observers wait in `newObservers`, disallowed ones
   in `disallowedObservers` (no duplicates); observers carry no handlers, `noHandlers`: every `numOnUpdateHandlers = 0` (the fragment has no subscriptions: counts = registered = 0);
 * `vars` (`Quiet.VarsOK`): variable cells and `var` nodes name each other.
+The HEIGHT-LIMIT clause is not a field of `Audit`; it is stated next to it (`history_audit_limit`), because it is proved by a different route (see below).
 
 ## PROVED HERE (for the model, both `cfg.debug` settings, any height limit `N`; partial correctness: the history is assumed to return `.ok`)
 
 * `history_audit`: EVERY STATE REACHED from `State.init N d` by a history of the fragment satisfies `Audit`.
 * `history_audit_every`: … so does every INTERMEDIATE state (C11's "audited after every single API action").
 * `history_stabilise_audit`: at every `stabilise` of a history: `Audit` before and after; after it THE RECOMPUTE HEAP IS EMPTY (`length = 0`, every bucket `[]`, no marker set),
-  the observer work lists are empty, every needed node is valid, NOT STALE and HAS A VALUE unless it is a `map_ref` node (these store nothing: `Node.value` of a `map_ref` node is
-  never written, readers project the input's value on the fly).
+  the observer work lists are empty, every needed node is valid, NOT STALE and HAS A VALUE unless it is a `map_ref` node (these store nothing: the recompute step of a `map_ref` node sets its
+  `Node.value` to `none`, readers project the input's value on the fly).
 * `audit_bucket`: from `Audit`, bucket by bucket: `queues[h]` has no duplicates and `n ∈ queues[h] ⇔ needed n ∧ stale n ∧ valid n ∧ height n = h` — "the pending-work queue holds
   exactly the needed-and-stale nodes, once each, at their height".
 * `audit_stale_height_le`: a needed stale node has `height ≤ rch.maxAllowed` (it sits in a bucket).
